@@ -40,6 +40,8 @@ mod scheduler;
 mod scoped;
 mod timeout_list;
 mod yield_now;
+#[cfg(may_verif)]
+pub mod verif;
 
 #[cfg(feature = "crossbeam_queue_steal")]
 mod crossbeam_queue_shim;
